@@ -273,6 +273,56 @@ let predict_prop (f : string array) (obs : string) : string * string * bool =
     else "BAD:property-data-wrong" in
   (pred, verdict, true)
 
+(* ---- schema tokens of the case kind typed (grammar in harness/cmd/hC17/typed.go) *)
+let parse_schema (s : string) : schema =
+  let i = ref 0 in
+  let len = String.length s in
+  let until stop =
+    let j = ref !i in
+    while !j < len && not (String.contains stop s.[!j]) do incr j done;
+    let r = String.sub s !i (!j - !i) in
+    i := !j; r in
+  let tag (t : string) : vtag =
+    let arg () = z_of_string (String.sub t 1 (String.length t - 1)) in
+    match t.[0] with
+    | 'R' -> TRequired | 'm' -> TMin (arg ()) | 'M' -> TMax (arg ())
+    | 't' -> TMinTime (arg ()) | 'T' -> TMaxTime (arg ()) | 'z' -> TMinSize (arg ()) | 'Z' -> TMaxSize (arg ())
+    | 'E' -> TEndpoint | 'P' -> TUrlPath
+    | _ -> failwith "bad tag" in
+  let rec typ () : schema =
+    match s.[!i] with
+    | '{' -> SStruct (false, fields ())
+    | '*' -> incr i; SStruct (true, fields ())
+    | '[' -> incr i; let e = typ () in incr i; SSlice e
+    | '<' -> incr i; let e = typ () in incr i; SMap e
+    | _ ->
+        let nm = until ";}]>" in
+        let bits b = n_of_int (if b = "N" then 64 else int_of_string b) in
+        (match nm with
+         | "b" -> SScalar KBool | "f" -> SScalar KFloat | "s" -> SScalar KString
+         | "d" -> SScalar KDuration | "z" -> SScalar KSize | "x" -> SScalar (KText (n_of_int 8))
+         | "U" | "I" -> SScalar KOpaque
+         | _ when nm.[0] = 'i' -> SScalar (KInt (bits (String.sub nm 1 (String.length nm - 1))))
+         | _ when nm.[0] = 'u' -> SScalar (KUint (bits (String.sub nm 1 (String.length nm - 1))))
+         | _ -> failwith "bad schema token")
+  and fields () =
+    incr i;
+    let acc = ref [] in
+    while s.[!i] <> '}' do
+      let key = str_of_hex (until ":") in
+      incr i;
+      let tags = until ":" in
+      incr i;
+      let t = typ () in
+      let tl = if tags = "-" || tags = "" then [] else List.map tag (String.split_on_char ',' tags) in
+      acc := (((key, false), tl), t) :: !acc;
+      if s.[!i] = ';' then incr i
+    done;
+    incr i;
+    List.rev !acc
+  in
+  typ ()
+
 (* ---- the option applied to the component (case kind app) *)
 let path_string (p : n list list) : string = String.concat "." (List.map string_of_str p)
 
@@ -369,7 +419,7 @@ let predict (c : string) (obs : string) : string * string * bool =
   if kind = "hdr" && Array.length f = 3 then predict_hdr f obs else
   if kind = "prop" && Array.length f = 3 then predict_prop f obs else
   if kind = "app" && Array.length f = 9 then predict_app f obs else
-  let off = if kind = "comp" then 3 else 1 in
+  let off = if kind = "comp" then 3 else if kind = "typed" then 2 else 1 in
   if Array.length f <> off + 6 then ("bad-case", "BAD:bad-case", false) else
   let mut = f.(off) and path = parse_path f.(off + 1) in
   let (env, prop, orc, orcq) = mk_oracles f.(off + 2) f.(off + 3) f.(off + 4) in
@@ -380,6 +430,7 @@ let predict (c : string) (obs : string) : string * string * bool =
       (match lookup_entry gen_registry (str_of_hex f.(1)) (str_of_hex f.(2)) with
        | Some e -> (match e.e_conf with Some (s, d) -> Some (s, d) | None -> None)
        | None -> None)
+    else if kind = "typed" then (let sc = parse_schema f.(1) in Some (sc, zero_of sc))
     else Some (gen_root_schema, gen_root_default) in
   match target with
   | None -> ("nocomp", "BAD:unknown-component", false)
